@@ -1,9 +1,293 @@
 package main
 
-import "strings"
+import (
+	"fmt"
+	"go/ast"
+	"go/token"
+	"strings"
+)
+
+// Gen/Cfg.lean: facts about control flow, locking, syscall arguments and a few source
+// fragments, extracted from the AST. Hand-written expectations about them are proved by
+// `decide`/`rfl` in the Props files; an edit that changes a fact breaks that proof.
+
+func callName(c *ast.CallExpr) string { return srcOf(c.Fun) }
+
+// callsIn lists the calls below n in source order (pre-order), skipping function literals
+// unless deep is set.
+func callsIn(n ast.Node, keep func(string) bool) []string {
+	var out []string
+	ast.Inspect(n, func(x ast.Node) bool {
+		if c, ok := x.(*ast.CallExpr); ok {
+			if nm := callName(c); keep(nm) {
+				out = append(out, nm)
+			}
+		}
+		return true
+	})
+	return out
+}
+
+func leanList(xs []string) string {
+	q := make([]string, len(xs))
+	for i, x := range xs {
+		q[i] = leanStr(x)
+	}
+	return "[" + strings.Join(q, ", ") + "]"
+}
+
+func isErrNotNil(e ast.Expr) bool {
+	s := srcOf(e)
+	return s == "err != nil" || strings.HasSuffix(s, "; err != nil")
+}
+
+// commit facts
+func commitFacts(root *pkgInfo) (mainCalls []string, errBranches []string) {
+	fd := findFunc(root, "Tx", "Commit")
+	interesting := func(nm string) bool {
+		switch nm {
+		case "tx.root.rebalance", "tx.root.spill", "tx.db.freelist.Free", "tx.commitFreelist", "tx.db.grow", "tx.write", "tx.writeMeta", "tx.close", "tx.rollback", "tx.Check":
+			return true
+		}
+		return false
+	}
+	var lastCall string
+	var walk func(list []ast.Stmt, inErr bool)
+	walk = func(list []ast.Stmt, inErr bool) {
+		for _, st := range list {
+			switch x := st.(type) {
+			case *ast.IfStmt:
+				// calls in init/cond belong to the main path
+				if x.Init != nil {
+					for _, c := range callsIn(x.Init, interesting) {
+						mainCalls = append(mainCalls, c)
+						lastCall = c
+					}
+				}
+				condErr := isErrNotNil(x.Cond)
+				if condErr {
+					calls := callsIn(x.Body, interesting)
+					rb := false
+					for _, c := range calls {
+						if c == "tx.rollback" {
+							rb = true
+						}
+					}
+					hasRet := false
+					ast.Inspect(x.Body, func(n ast.Node) bool {
+						if _, ok := n.(*ast.ReturnStmt); ok {
+							hasRet = true
+						}
+						return true
+					})
+					errBranches = append(errBranches, fmt.Sprintf("%s:rollback=%v:returns=%v", lastCall, rb, hasRet))
+				} else {
+					walk(x.Body.List, inErr)
+					if el, ok := x.Else.(*ast.BlockStmt); ok {
+						walk(el.List, inErr)
+					}
+				}
+			case *ast.DeferStmt:
+				// logging defers only
+			default:
+				for _, c := range callsIn(st, interesting) {
+					mainCalls = append(mainCalls, c)
+					lastCall = c
+				}
+			}
+		}
+	}
+	walk(fd.Body.List, false)
+	return
+}
+
+func lockOpsOf(p *pkgInfo, recv, name string) []string {
+	fd := findFunc(p, recv, name)
+	var out []string
+	ast.Inspect(fd.Body, func(n ast.Node) bool {
+		switch x := n.(type) {
+		case *ast.DeferStmt:
+			nm := callName(x.Call)
+			if isLockOp(nm) {
+				out = append(out, "defer "+shortLock(nm))
+				return false
+			}
+		case *ast.CallExpr:
+			nm := callName(x)
+			if isLockOp(nm) {
+				out = append(out, shortLock(nm))
+			}
+		}
+		return true
+	})
+	return out
+}
+
+func isLockOp(nm string) bool {
+	for _, s := range []string{".Lock", ".Unlock", ".RLock", ".RUnlock"} {
+		if strings.HasSuffix(nm, s) && (strings.Contains(nm, "lock") || strings.Contains(nm, "Mu")) {
+			return true
+		}
+	}
+	return false
+}
+
+func shortLock(nm string) string {
+	parts := strings.Split(nm, ".")
+	if len(parts) >= 2 {
+		return parts[len(parts)-2] + "." + parts[len(parts)-1]
+	}
+	return nm
+}
+
+// ioOrder: the order of writeAt / fdatasync calls in a function
+func ioOrder(p *pkgInfo, recv, name string) []string {
+	fd := findFunc(p, recv, name)
+	return callsIn(fd.Body, func(nm string) bool {
+		return strings.HasSuffix(nm, "ops.writeAt") || nm == "fdatasync" || strings.HasSuffix(nm, "file.Truncate") || strings.HasSuffix(nm, "file.Sync")
+	})
+}
+
+func findStmtSrc(fd *ast.FuncDecl, pred func(string) bool) string {
+	var found string
+	ast.Inspect(fd.Body, func(n ast.Node) bool {
+		if found != "" {
+			return false
+		}
+		if st, ok := n.(ast.Stmt); ok {
+			if _, isBlock := st.(*ast.BlockStmt); !isBlock {
+				s := srcOf(st)
+				if pred(s) {
+					found = s
+					return false
+				}
+			}
+		}
+		return true
+	})
+	return found
+}
+
+func stripComments(fd *ast.FuncDecl) {}
 
 func genCfg(root, common, freelist *pkgInfo) string {
 	var b strings.Builder
-	b.WriteString("namespace Bolt.Gen\n\nend Bolt.Gen\n")
+	b.WriteString("namespace Bolt.Gen\n\n")
+	mc, eb := commitFacts(root)
+	fmt.Fprintf(&b, "/-- calls on the main path of `Tx.Commit`, in source order -/\ndef commitCalls : List String := %s\n\n", leanList(mc))
+	fmt.Fprintf(&b, "/-- every `if err != nil` block of `Tx.Commit`: failing call, whether the block calls `tx.rollback()`, whether it returns -/\ndef commitErrBranches : List String := %s\n\n", leanList(eb))
+	cf := findFunc(root, "Tx", "commitFreelist")
+	fmt.Fprintf(&b, "def commitFreelistCalls : List String := %s\n\n", leanList(callsIn(cf.Body, func(nm string) bool {
+		return nm == "tx.allocate" || nm == "tx.rollback" || nm == "tx.db.freelist.Write" || nm == "tx.meta.SetFreelist"
+	})))
+	fmt.Fprintf(&b, "def txWriteIO : List String := %s\n", leanList(ioOrder(root, "Tx", "write")))
+	fmt.Fprintf(&b, "def txWriteMetaIO : List String := %s\n", leanList(ioOrder(root, "Tx", "writeMeta")))
+	fmt.Fprintf(&b, "def dbGrowIO : List String := %s\n", leanList(ioOrder(root, "DB", "grow")))
+	fmt.Fprintf(&b, "def dbInitIO : List String := %s\n\n", leanList(ioOrder(root, "DB", "init")))
+	// the NoSync guards
+	fmt.Fprintf(&b, "def txWriteSyncGuard : String := %s\n", leanStr(guardOf(findFunc(root, "Tx", "write"), "fdatasync")))
+	fmt.Fprintf(&b, "def txWriteMetaSyncGuard : String := %s\n\n", leanStr(guardOf(findFunc(root, "Tx", "writeMeta"), "fdatasync")))
+	// locks
+	b.WriteString("/-- lock operations per function, in source order -/\ndef lockOps : List (String × List String) :=\n  [")
+	var items []string
+	for _, f := range [][2]string{{"DB", "beginTx"}, {"DB", "beginRWTx"}, {"DB", "removeTx"}, {"Tx", "close"}, {"DB", "Close"}, {"DB", "mmap"}, {"Tx", "writeMeta"}, {"DB", "Batch"}, {"batch", "run"}, {"DB", "Stats"}, {"DB", "Update"}, {"DB", "View"}} {
+		items = append(items, fmt.Sprintf("(%s, %s)", leanStr(f[0]+"."+f[1]), leanList(lockOpsOf(root, f[0], f[1]))))
+	}
+	b.WriteString(strings.Join(items, ",\n   ") + "]\n\n")
+	// meta slot
+	mw := findFunc(common, "Meta", "Write")
+	fmt.Fprintf(&b, "def metaWriteSlot : String := %s\n", leanStr(findStmtSrc(mw, func(s string) bool { return strings.HasPrefix(s, "p.id =") })))
+	// syscall arguments
+	fl := findFunc(root, "", "flock")
+	fmt.Fprintf(&b, "def flockSrc : String := %s\n", leanStr(srcOf(fl.Body)))
+	mm := findFunc(root, "", "mmap")
+	fmt.Fprintf(&b, "def mmapCall : String := %s\n", leanStr(findStmtSrc(mm, func(s string) bool { return strings.Contains(s, "unix.Mmap(") })))
+	op := findFunc(root, "", "Open")
+	fmt.Fprintf(&b, "def openFlockCall : String := %s\n", leanStr(firstCallSrc(op, "flock")))
+	fmt.Fprintf(&b, "def openFlagSrc : String := %s\n", leanStr(findStmtSrc(op, func(s string) bool { return strings.HasPrefix(s, "if options.ReadOnly {") })))
+	fmt.Fprintf(&b, "def openReadOnlyReturn : String := %s\n", leanStr(findStmtSrc(op, func(s string) bool { return strings.HasPrefix(s, "if db.readOnly {") })))
+	brw := findFunc(root, "DB", "beginRWTx")
+	fmt.Fprintf(&b, "def beginRWTxFirst : String := %s\n", leanStr(srcOf(brw.Body.List[0])))
+	cl := findFunc(root, "DB", "close")
+	fmt.Fprintf(&b, "def closeUnlockSrc : String := %s\n\n", leanStr(findStmtSrc(cl, func(s string) bool { return strings.HasPrefix(s, "if !db.readOnly {") })))
+	// allocate pre-check and grow
+	al := findFunc(root, "DB", "allocate")
+	fmt.Fprintf(&b, "def allocateMinszSrc : String := %s\n", leanStr(findStmtSrc(al, func(s string) bool { return strings.HasPrefix(s, "var minsz") })))
+	fmt.Fprintf(&b, "def allocatePrecheckSrc : String := %s\n", leanStr(stripLogging(findStmtSrc(al, func(s string) bool { return strings.HasPrefix(s, "if db.MaxSize > 0 {") }))))
+	fmt.Fprintf(&b, "def allocateRemapSrc : String := %s\n", leanStr(findStmtSrc(al, func(s string) bool { return strings.HasPrefix(s, "if minsz >= db.datasz {") })))
+	gr := findFunc(root, "DB", "grow")
+	fmt.Fprintf(&b, "def growEarlyReturnSrc : String := %s\n", leanStr(findStmtSrc(gr, func(s string) bool { return strings.HasPrefix(s, "if sz <= fileSize {") })))
+	fmt.Fprintf(&b, "def growSizeSrc : String := %s\n", leanStr(findStmtSrc(gr, func(s string) bool { return strings.HasPrefix(s, "sz = ") })))
+	fmt.Fprintf(&b, "def growTruncateSrc : String := %s\n", leanStr(firstCallSrc(gr, "db.file.Truncate")))
+	cm := findFunc(root, "Tx", "Commit")
+	fmt.Fprintf(&b, "def commitGrowCall : String := %s\n", leanStr(firstCallSrc(cm, "tx.db.grow")))
+	b.WriteString("\nend Bolt.Gen\n")
 	return b.String()
 }
+
+// guardOf returns the condition of the innermost if statement enclosing the first call of `callee`.
+func guardOf(fd *ast.FuncDecl, callee string) string {
+	var res string
+	var stack []ast.Node
+	ast.Inspect(fd.Body, func(n ast.Node) bool {
+		if n == nil {
+			stack = stack[:len(stack)-1]
+			return true
+		}
+		stack = append(stack, n)
+		if c, ok := n.(*ast.CallExpr); ok && callName(c) == callee && res == "" {
+			// the call sits in the Init of its own `if err := fdatasync(..); err != nil`; take the next enclosing if
+			seen := 0
+			for i := len(stack) - 1; i >= 0; i-- {
+				if is, ok := stack[i].(*ast.IfStmt); ok {
+					seen++
+					if seen == 2 {
+						res = srcOf(is.Cond)
+						break
+					}
+				}
+			}
+		}
+		return true
+	})
+	return res
+}
+
+func firstCallSrc(fd *ast.FuncDecl, callee string) string {
+	var res string
+	ast.Inspect(fd.Body, func(n ast.Node) bool {
+		if c, ok := n.(*ast.CallExpr); ok && callName(c) == callee && res == "" {
+			res = srcOf(c)
+		}
+		return true
+	})
+	return res
+}
+
+// stripLogging removes Logger() calls (diagnostics only) from a source fragment.
+func stripLogging(s string) string {
+	for {
+		i := strings.Index(s, "db.Logger().")
+		if i < 0 {
+			return s
+		}
+		// cut up to the matching close paren
+		depth, j := 0, i
+		for ; j < len(s); j++ {
+			if s[j] == '(' {
+				depth++
+			} else if s[j] == ')' {
+				depth--
+				if depth == 0 && j > strings.Index(s[i:], "(")+i+2 {
+					// this closes the Errorf(...) call if we have passed Logger()'s own parens
+					if strings.Count(s[i:j+1], "(") >= 2 {
+						break
+					}
+				}
+			}
+		}
+		s = s[:i] + s[min(j+1, len(s)):]
+	}
+}
+
+var _ = token.ADD
